@@ -18,9 +18,15 @@ def gen(rng, tier):
     n = 240 if tier == 'quick' else 5000
     cases = []
     for _ in range(n):
-        o = progs.Opts(open_leaves=0.5 if rng.random() < 0.6 else 0.0, control=rng.random() < 0.5, cut=rng.random() < 0.2, opaque_cut=False, builtins=True)
+        o = progs.Opts(open_leaves=0.5 if rng.random() < 0.6 else 0.0, control=rng.random() < 0.5, cut=rng.random() < 0.2, opaque_cut=False, builtins=True,
+                       bag_shapes=0.5)
         p = progs.gen_program(rng, o)
         cases.append({'clauses': p['clauses'], 'queries': p['queries']})
+    # builtins whose other arguments (bag, extra arguments, terms of = and \=) share variables with a goal whose answers
+    # depend on the binding state of those variables (progs.gen_meta_program)
+    for _ in range(110 if tier == 'quick' else 3000):
+        p = progs.gen_meta_program(rng)
+        cases.append({'clauses': p['clauses'], 'queries': p['queries'], 'origin': 'meta-shared', 'three_views': True})
     return cases
 
 def builtin_corpus():
